@@ -133,8 +133,14 @@ def structure(stmts: list[ast.stmt], res: Optional[str]) -> list[ast.stmt]:
         if not _has_return([s]):
             out.append(s)
             continue
-        if isinstance(s, (ast.For, ast.While, ast.AsyncFor)):
-            raise NotStructurable("return inside loop")
+        if isinstance(s, (ast.For, ast.While)):
+            # `for ...: ... return e` + rest  ==  `for ...: ... res = e; break` + `else: rest`   (loop without own breaks)
+            if _own_breaks(s.body) or _has_return(s.orelse):
+                raise NotStructurable("return inside a loop that also breaks")
+            s.body = _returns_to_breaks(s.body, res)
+            s.orelse = structure(list(s.orelse) + rest, res)
+            out.append(s)
+            return out
         if isinstance(s, ast.If):
             if not rest:
                 s.body = structure(s.body, res)
@@ -207,6 +213,57 @@ def structure(stmts: list[ast.stmt], res: Optional[str]) -> list[ast.stmt]:
     if res is not None:
         anchor = stmts[-1] if stmts else None
         out.append(_assign_none(res, anchor))
+    return out
+
+
+def _own_breaks(stmts) -> bool:
+    """A `break` that belongs to the loop whose body is stmts (not to a nested loop)."""
+    for st in stmts:
+        if isinstance(st, ast.Break):
+            return True
+        if isinstance(st, (ast.For, ast.While, ast.AsyncFor, ast.FunctionDef, ast.AsyncFunctionDef, ast.ClassDef)):
+            if isinstance(st, (ast.For, ast.While)) and _own_breaks(st.orelse):
+                return True
+            continue
+        for field in ("body", "orelse", "finalbody"):
+            sub = getattr(st, field, None)
+            if isinstance(sub, list) and sub and isinstance(sub[0], ast.stmt) and _own_breaks(sub):
+                return True
+        if isinstance(st, ast.Try) and any(_own_breaks(h.body) for h in st.handlers):
+            return True
+        if isinstance(st, ast.Match) and any(_own_breaks(c.body) for c in st.cases):
+            return True
+    return False
+
+
+def _returns_to_breaks(stmts, res):
+    out = []
+    for st in stmts:
+        if isinstance(st, ast.Return):
+            if res is not None:
+                v = st.value if st.value is not None else ast.Constant(value=None)
+                out.append(ast.copy_location(ast.Assign(targets=[ast.Name(id=res, ctx=ast.Store())], value=v), st))
+            elif st.value is not None and not isinstance(st.value, (ast.Constant, ast.Name)):
+                out.append(ast.copy_location(ast.Expr(value=st.value), st))
+            out.append(ast.copy_location(ast.Break(), st))
+            return out
+        if isinstance(st, (ast.For, ast.While, ast.AsyncFor)):
+            if _has_return([st]):
+                raise NotStructurable("return inside a nested loop")
+            out.append(st)
+            continue
+        if _has_return([st]):
+            for field in ("body", "orelse", "finalbody"):
+                sub = getattr(st, field, None)
+                if isinstance(sub, list) and sub and isinstance(sub[0], ast.stmt):
+                    setattr(st, field, _returns_to_breaks(sub, res))
+            if isinstance(st, ast.Try):
+                for h in st.handlers:
+                    h.body = _returns_to_breaks(h.body, res)
+            if isinstance(st, ast.Match):
+                for c in st.cases:
+                    c.body = _returns_to_breaks(c.body, res)
+        out.append(st)
     return out
 
 
